@@ -1134,6 +1134,15 @@ def main(tier, seed, replay=None):
                           {'event_index': at, 'events': trs[i]['ev'][max(0, at - 12):at + 2]}, {'scenario': rp['scenario']})
         return out.finish()
 
+    import time as _time
+    phases = {}
+    out.extra['phase_wall_s'] = phases
+    _t = [_time.time()]
+
+    def lap(name):
+        phases[name] = round(_time.time() - _t[0], 1)
+        _t[0] = _time.time()
+
     # 1. design spec: exhaustive checks; every bug variant must be refuted (vacuity guards)
     main_cfg = 'MC_Safelink_quick.cfg' if tier == 'quick' else 'MC_Safelink_thorough.cfg'
     jobs = [('main', tlc.check, ('MC_Safelink.tla', main_cfg), dict(workers=workers or 8, timeout=3000)),
@@ -1156,6 +1165,7 @@ def main(tier, seed, replay=None):
             out.add_tlc({'main': main_cfg, 'modes': 'MC_Safelink_modes.cfg', 'quick': 'MC_Safelink_quick.cfg',
                          'live': 'MC_Safelink_live.cfg (liveness EventuallyDelivered under FairSpec)'}[k], r)
 
+    lap('1 TLC design spec + bug cfgs + apalache')
     # 2. spec -> code: TLC behaviours driven through the real stack, post-states compared
     nsim = 150 if tier == 'quick' else 1500
     rs, behs = tlc.simulate('MC_Safelink.tla', 'SIM_Safelink.cfg', num=nsim, depth=90, seed=seed % 100000, timeout=1500)
@@ -1190,15 +1200,18 @@ def main(tier, seed, replay=None):
                       {'event_index': at, 'events': sim_traces[i]['ev'][max(0, at - 12):at + 2]},
                       {'scenario': {k: v for k, v in sims[i][0].items() if k != 'project'}})
 
+    lap('2 spec->code replay')
     # 3. code -> spec: exhaustive outcome words x submission patterns, start-up enumeration, random beyond
     words = word_scenarios(tier)
     starts = startup_scenarios(tier, rng)
     counts = count_scenarios(tier)
     check_blocks(out, words + starts + counts, 'outcome words + start-up + exact counts', stats)
     nwords = len(words)
+    lap('3a words/start-up/counts')
     rnd = random_scenarios(tier, rng)
     st_r = new_stats()
     check_blocks(out, rnd, 'random long runs', st_r, block=64)
+    lap('3b random long runs')
     duals = dual_scenarios(tier, rng)
     dres = common.pmap(_exec_multi_job, [(sc, None) for sc in duals], init=_init)
     dtr = [t for ts in dres for t in ts]
@@ -1238,6 +1251,7 @@ def main(tier, seed, replay=None):
     out.extra['transmissions'] = stats['tx']
     out.extra['events'] = stats['events']
 
+    lap('3c multi-link')
     # 4. sensitivity: in-memory mutants of the driver must be rejected by the monitor
     sub = words[::max(1, len(words) // (240 if tier == 'quick' else 1500))] + starts[::max(1, len(starts) // (90 if tier == 'quick' else 300))] + rnd[:2]
     names = sorted(set(MUTANTS) - set(MULTI_MUTANTS))
@@ -1251,6 +1265,7 @@ def main(tier, seed, replay=None):
         out.sensitivity['mutant:' + name] = '%d of %d traces rejected (%s)' % (len(mine), len(sub), ','.join(clauses))
         if not mine:
             raise common.MachineryError('monitor did not reject in-memory mutant %s' % name)
+    lap('4a mutants')
     mm = sorted(MULTI_MUTANTS)
     mres = common.pmap(_exec_multi_job, [(sc, name) for name in mm for sc in duals[:2]], init=_init)
     mt = [t for ts in mres for t in ts]
@@ -1264,6 +1279,7 @@ def main(tier, seed, replay=None):
             sum(1 for (i, _c, _a) in mbad if owner[i] == name), owner.count(name), ','.join(mine), n_not_quiet)
         if not mine:
             raise common.MachineryError('monitor did not reject in-memory mutant %s' % name)
+    lap('4b multi-link mutants')
     # binding self-tests: corrupted traces must be rejected
     base = next(r[0] for r in run_scenarios(words[-3:]) if any(e['e'] == 'sub' for e in r[0]['ev']))
     cor = {}
@@ -1289,6 +1305,7 @@ def main(tier, seed, replay=None):
         out.sensitivity['binding:' + name] = ('rejected (monitor=%s conform=%s twin=%s)' % (clause, conf, mach)) if rejected else 'ACCEPTED'
         if not rejected:
             raise common.MachineryError('trace spec accepted corrupted trace: %s' % name)
+    lap('4c corrupted traces')
     if stats['not_quiet']:
         raise common.MachineryError('%d executions did not end quiescent (harness problem)' % stats['not_quiet'])
     return out.finish()
